@@ -203,6 +203,47 @@ theorem groupRowsBy_ins_eq {K : Type} [DecidableEq K] (kv : K → List Value)
       rw [ih]
       simp [kIns, hk, encG]
 
+/-- `groupRowsBy` on rows paired with typed keys -/
+theorem groupRowsBy_pairs {K : Type} [DecidableEq K] (kv : K → List Value)
+    (hsame : ∀ a b, sameGroupKey (kv a) (kv b) = .ok (decide (a = b))) (tk : List (K × List Scope)) :
+    groupRowsBy (tk.map (fun p => (kv p.1, p.2))) =
+      .ok ((firstKeys (tk.map (·.1))).map (fun k => (kv k, (tk.filter (fun p => decide (p.1 = k))).map (·.2)))) := by
+  have hfold : ∀ (tk : List (K × List Scope)) (acc : List (K × List (List Scope))),
+      (tk.map (fun p => (kv p.1, p.2))).foldlM (fun (acc : List (List Value × List (List Scope))) (x : List Value × List Scope) =>
+        match x with
+        | (k, row) => do
+          let __x ← groupRowsBy.ins k row acc
+          match __x with
+            | (acc', found) => pure (if found = true then acc' else acc' ++ [(k, [row])])) (acc.map (encG kv)) =
+        (.ok ((tk.foldl kStep acc).map (encG kv)) : R _) := by
+    intro tk
+    induction tk with
+    | nil => intro acc; rfl
+    | cons x xs ih =>
+      intro acc
+      obtain ⟨k, row⟩ := x
+      simp only [List.map_cons, List.foldlM_cons, List.foldl_cons, groupRowsBy_ins_eq kv hsame, bind, Except.bind, pure, Except.pure]
+      have : (if (kIns k row acc).2 = true then (kIns k row acc).1.map (encG kv)
+          else (kIns k row acc).1.map (encG kv) ++ [(kv k, [row])]) = (kStep acc (k, row)).map (encG kv) := by
+        unfold kStep
+        cases (kIns k row acc).2 <;> simp [encG]
+      rw [this]
+      exact ih _
+  unfold groupRowsBy
+  have := hfold tk []
+  simp only [List.map_nil] at this
+  simp only [bind, Except.bind, pure, Except.pure] at this ⊢
+  rw [this]
+  have h2 := foldl_kStep tk []
+  have h0 : accOf ([] : List (K × List Scope)) = [] := rfl
+  rw [h0] at h2
+  rw [h2]
+  simp only [List.nil_append, accOf, List.map_map]
+  congr 1
+  apply List.map_congr_left
+  intro k _
+  simp [encG]
+
 theorem groupRowsBy_eq {K : Type} [DecidableEq K] (kv : K → List Value)
     (hsame : ∀ a b, sameGroupKey (kv a) (kv b) = .ok (decide (a = b))) (kf : List Scope → K) (rs : List (List Scope)) :
     groupRowsBy (rs.map (fun L => (kv (kf L), L))) = .ok ((groupsOf kf rs).map (fun G => (kv (kf (G.headD [])), G))) := by
